@@ -330,6 +330,8 @@ impl<H: Hal, const SIZE: usize> VirtQueue<H, SIZE> {
 
         // Wait until there is at least one element in the used ring.
         while !self.can_pop() {
+            #[cfg(virtio_drivers_verif)]
+            crate::verif::spin(crate::verif::SPIN_QUEUE_WAIT_POP);
             spin_loop();
         }
 
@@ -566,6 +568,66 @@ impl<H: Hal, const SIZE: usize> VirtQueue<H, SIZE> {
         }
 
         Ok(len)
+    }
+}
+
+/// A read-only copy of the private state of a [`VirtQueue`], for verification harnesses.
+#[cfg(all(virtio_drivers_verif, feature = "alloc"))]
+#[derive(Clone, Debug, Eq, PartialEq)]
+pub struct VerifSnapshot {
+    /// Index of the queue.
+    pub queue_idx: u16,
+    /// Number of descriptors in use.
+    pub num_used: u16,
+    /// Head of the free list.
+    pub free_head: u16,
+    /// Trusted copy of the available index.
+    pub avail_idx: u16,
+    /// Next used ring index to be consumed.
+    pub last_used_idx: u16,
+    /// Shadow descriptor table as `(addr, len, flags, next)`.
+    pub desc_shadow: alloc::vec::Vec<(u64, u32, u16, u16)>,
+    /// Whether an indirect list is recorded for each head descriptor.
+    pub indirect_lists: alloc::vec::Vec<bool>,
+}
+
+#[cfg(all(virtio_drivers_verif, feature = "alloc"))]
+impl<H: Hal, const SIZE: usize> VirtQueue<H, SIZE> {
+    /// Returns a copy of the private state of the queue.
+    pub fn verif_snapshot(&self) -> VerifSnapshot {
+        VerifSnapshot {
+            queue_idx: self.queue_idx,
+            num_used: self.num_used,
+            free_head: self.free_head,
+            avail_idx: self.avail_idx,
+            last_used_idx: self.last_used_idx,
+            desc_shadow: self
+                .desc_shadow
+                .iter()
+                .map(|d| (d.addr, d.len, d.flags.bits(), d.next))
+                .collect(),
+            indirect_lists: self.indirect_lists.iter().map(Option::is_some).collect(),
+        }
+    }
+
+    /// Advances the available and used positions of an idle queue by `k`, as if `k` single-buffer
+    /// requests had been added, completed and popped. The caller advances the device's used index
+    /// by the same amount.
+    pub fn verif_warp(&mut self, k: u16) {
+        assert_eq!(self.num_used, 0);
+        self.avail_idx = self.avail_idx.wrapping_add(k);
+        self.last_used_idx = self.last_used_idx.wrapping_add(k);
+        // SAFETY: `self.avail` is properly aligned, dereferenceable and initialised.
+        unsafe {
+            (*self.avail.as_ptr())
+                .idx
+                .store(self.avail_idx, Ordering::Release);
+            if self.event_idx {
+                (*self.avail.as_ptr())
+                    .used_event
+                    .store(self.last_used_idx, Ordering::Release);
+            }
+        }
     }
 }
 
